@@ -379,7 +379,7 @@ def body(chk):
     chk.machinery_failure(f'vacuous model: {missing} never taken')
   # 2. every single-client behaviour on the real code next to a local twin
   total = 0
-  gens = [dict(Kinds={'box'}, MaxCalls=4, MaxObjs=1, AllowShutdown=True),
+  gens = [dict(Kinds={'box'}, MaxCalls=4 if thorough else 3, MaxObjs=1, AllowShutdown=True),
           dict(Kinds={'iter', 'cnt'}, MaxCalls=5, MaxObjs=2, AllowShutdown=False),
           dict(Kinds={'list'}, MaxCalls=5, MaxObjs=2, AllowShutdown=False),
           dict(Kinds={'iter'}, MaxCalls=4, MaxObjs=1, AllowShutdown=True)]
